@@ -113,12 +113,12 @@ def h_four_index(ctx, twin=False):
     value = ctx.real("value", default=1.5)
     if ctx.mode == "conc":
         n = max(max(i), max(p)) + 1
-        arr = np.zeros((n, n, n, n))
+        # the array starts with a sentinel that differs from the value, so that also a written 0.0 is observable
+        sentinel = 7.25 if value != 7.25 else -3.5
+        arr = np.full((n, n, n, n), sentinel)
         U.set_four_index_element(arr, *i, value)
-        written = arr[tuple(p)] == value and value != 0.0
+        written = arr[tuple(p)] == value
         inorbit = any(tuple(q) == tuple(p) for q in _orbit_positions(i))
-        if value == 0.0:
-            written = inorbit
         if twin:
             inorbit = tuple(p) == tuple(i)
         ctx.oblige("writes-exactly-the-orbit", written == inorbit)
